@@ -68,6 +68,7 @@ func runBatch(in []byte) []byte {
 func (e *env) newSession(h hist) *session {
 	s := &session{e: e, h: h}
 	s.srv = svc.NewServer(false)
+	wn.RegisterHdr(s.srv)
 	if h.Hook {
 		s.srv.SetDispatchHook(&svc.Hook{})
 	}
@@ -251,7 +252,10 @@ func (s *session) do(c call) (o observed) {
 	keep := func(b arrow.RecordBatch) arrow.RecordBatch { owned = append(owned, b); return b }
 
 	q := wire.Req{Method: c.Method, RequestID: "r-" + c.Script.ID}
+	hdrFamily := c.Method == "hp_hdr" || c.Method == "hx_hdr" || c.Method == "hu_hdr"
 	switch {
+	case hdrFamily:
+		q.Params = keep(wn.HdrParamsBatch(c.HdrMode, c.Args.Tag))
 	case c.Class == "unary:describe":
 	case c.Class == "unary:rows0":
 		q.Params = keep(svc.ParamsBatchRows(c.Script, c.Args, 0))
@@ -310,7 +314,7 @@ func (s *session) do(c call) (o observed) {
 			o.stream(&st)
 			return o
 		}
-		sc := wire.StreamCall{Req: q, ExpectHeader: svc.Methods[c.Method].Header, Pipelined: c.Pipelined}
+		sc := wire.StreamCall{Req: q, ExpectHeader: svc.Methods[c.Method].Header || hdrFamily, Pipelined: c.Pipelined}
 		if !c.Producer {
 			sc.InputSchema = inputSchema(c)
 		}
@@ -393,6 +397,16 @@ func (e *env) observe(s *session, c call, o observed, mark int64) {
 			}
 		case strings.Contains(m, "external input resolve failed") || strings.Contains(m, "resolving external request"):
 			rep.class("observed." + tag + ".external-resolve-failed")
+		}
+	}
+	if strings.HasPrefix(c.Class, "stream:header-") || strings.HasPrefix(c.Class, "unary:nested-serializable") {
+		switch {
+		case c.HdrMode < 0 && !o.failed:
+			rep.class("observed." + tag + ".serializable-value-delivered")
+		case c.HdrMode == 0 && o.failed:
+			rep.class("observed." + tag + ".serialisation-failed-at-first-field")
+		case c.HdrMode > 0 && o.failed:
+			rep.class("observed." + tag + ".serialisation-failed-after-earlier-fields-built")
 		}
 	}
 	var exch, emit2 int
